@@ -53,6 +53,26 @@ Theorem C04_xml_store : forall fl n objs seen,
             read_store gen_xml_r xml_meta xml_tops n x = Ok (read_back xml_tops objs).
 Proof. exact gen_store_roundtrip. Qed.
 
+(* Single-object API (object_to_xml_element / read_aas_xml_element).  [single_triples] pairs every member of
+   XMLConstructables with every class the single-object writer serialises and that member's constructor (or
+   dispatch target) builds.  Every such pair round-trips; the only members without a writer counterpart are the
+   two that the reader cannot construct either; and every class the writer accepts (all 34 model classes incl.
+   the five lang string sets, and value lists) is serialised without raising and has a constructable. *)
+Theorem C04_single_roundtrip : forall fl n m fn c ctor v tag,
+  In (m, (fn, c, ctor)) single_triples -> cls_of v = c -> wfb xml_meta n v = true ->
+  exists x, enc_obj fl gen_xml_w n fn tag v = Ok x /\ xtag x = tag /\ dec_obj gen_xml_r xml_meta n ctor x = Ok v.
+Proof. exact gen_single_roundtrip. Qed.
+
+Theorem C04_single_members : single_unsupported = ["SECURITY"; "IEC61360_CONCEPT_DESCRIPTION"].
+Proof. exact gen_single_unsupported. Qed.
+
+Theorem C04_single_classes :
+  forallb (fun cw : string * (string * string * bool) =>
+             match cw with (c, (_, _, raises)) =>
+               negb raises && existsb (fun mt : string * triple => match snd mt with (_, c', _) => String.eqb c' c end)
+                                      single_triples end) xml_w_single = true.
+Proof. exact gen_single_classes. Qed.
+
 (* The predicate is discriminating: the rows repaired on the pinned tree are rejected. *)
 Example C04_truthy_on_typed_value_rejected :
   cond_ok xml_meta (KXsd "value_type") WTruthy VNone = false /\
